@@ -175,6 +175,12 @@ def check_regex(ctx, rep):
             rep.ok("R-REGEX", "tag-language-group-%d" % gi, where, "L(%s) is included in L(group %d) (product-DFA search, %s state pairs)" % (TAG_LANG, gi, s.get("pairs")))
         else:
             rep.bad("R-REGEX", "R-REGEX:tag-language-group-%d" % gi, where, "tag name %r is a valid Haystack tag but group %d (%s) cannot match it: '$%s' is left verbatim" % (s.get("witness"), gi, c["pattern"], s.get("witness")))
+        # ... and nothing else: `$tag` ends at the first character that cannot be part of a tag name
+        s2 = rx("subset", c["pattern"], TAG_LANG)
+        if s2.get("subset"):
+            rep.ok("R-REGEX", "tag-language-group-%d:no-more" % gi, where, "L(group %d) is included in L(%s): the name ends at the first non-tag character" % (gi, TAG_LANG))
+        else:
+            rep.bad("R-REGEX", "R-REGEX:tag-language-group-%d:no-more" % gi, where, "group %d (%s) also matches %r, which is no tag name: a tag followed directly by such characters is looked up under the longer name and left verbatim" % (gi, c["pattern"], s2.get("witness")))
     # delimiters: alternative shapes $x, ${x}, $<x>
     outer = [c for c in r["captures"] if c["parent"] == 0]
     shapes = []
@@ -257,4 +263,43 @@ def check_replacer_pushes(ctx, rep):
                 rep.bad("T-VERBATIM", "T-VERBATIM:replacer-push:inner-group", x.where(bi), "the replacer appends the text of capture group %s instead of the whole match: braces / angle brackets of an unresolved macro are lost" % [g for g in groups if g != 0])
             elif groups == [0] or not groups:
                 rep.ok("T-VERBATIM", key, x.where(bi), "appends %s" % ("the whole match (group 0)" if groups else "text derived from the looked-up value"))
+    return n
+
+
+
+DISPLAY_TEXT_KINDS = {"Ref": "its display name, else its id", "Str": "its text without quotes"}
+
+
+def check_replacer_kinds(ctx, rep):
+    """'replaced by that tag's display text': the replacer treats exactly Ref (dis, else id) and Str (raw text) specially and
+    substitutes every other kind by Value::to_string(); an extra arm for another kind substitutes something else than its display text"""
+    from rules import kinds as K
+
+    prog = ctx.prog
+    body = next((b for b in prog.bodies.values() if b.short.endswith("as regex::Replacer>::replace_append")), None)
+    if body is None:
+        rep.gap("DisReplacer::replace_append", "-", "not found")
+        return 0
+    vnames = {d: n for n, d in K.variants(prog, K.VAL)}
+    sws = K.value_switches(body, K.VAL)
+    if not sws:
+        rep.gap("DisReplacer::replace_append:kind dispatch", body.where(), "no switch on the value's kind")
+        return 0
+    explicit = set()
+    for b, t, _pl in sws:
+        for val, _tb in t["targets"]:
+            explicit.add(vnames.get(int(val), "?"))
+    n = 1
+    extra = explicit - set(DISPLAY_TEXT_KINDS)
+    missing = set(DISPLAY_TEXT_KINDS) - explicit
+    if extra or missing:
+        rep.bad("T-VERBATIM", "T-VERBATIM:replacer-kinds", body.where(sws[0][0]), "the replacer has special cases for %s; the display text is special only for %s (extra: %s, missing: %s)" % (sorted(explicit), sorted(DISPLAY_TEXT_KINDS), sorted(extra), sorted(missing)))
+    else:
+        rep.ok("T-VERBATIM", "replacer-kinds", body.where(sws[0][0]), "special cases exactly for Ref and Str")
+    n += 1
+    names = [strip_generics(mir.callee_name(t) or "") for _, t in body.calls()]
+    if any(x.endswith("ToString>::to_string") or x.endswith("ToString::to_string") for x in names):
+        rep.ok("T-VERBATIM", "replacer-default-is-to_string", body.where(), "other kinds are substituted by to_string()")
+    else:
+        rep.bad("T-VERBATIM", "T-VERBATIM:replacer-default-is-to_string", body.where(), "no to_string() of the looked-up value: kinds other than Ref / Str are not substituted by their display text")
     return n
